@@ -22,7 +22,7 @@ TIER_SIZES = {
     "overrate": (6, 40),    # data rate above the hot buffer's maximum ingest rate
     "tier": (20, 160),      # hot buffer beyond its tiering threshold (known findings live here)
     "overlap": (8, 40),
-    "late": (3, 16),        # long quiet stretches: the last observation falls due around t = 100 / t = 1000
+    "late": (4, 20),        # long quiet stretches: the last observation falls due around t = 100 / t = 1000
 }
 PERM_KINDS = ["AT", "AI", "PI", "ST"]
 
@@ -66,6 +66,16 @@ def jobs(tier, seed):
     for i in range(TIER_SIZES["late"][idx]):
         c = gen.random_cfg(rng, alg=["batch", "queue"][i % 2], family="roomy", nobs=2, maxn=3)
         c.pop("decoy", None)
+        if i % 4 == 3:
+            # one very long task (more than 64 steps on the slowest machine) ahead of a short one
+            c = gen.random_cfg(rng, alg=["batch", "queue"][(i // 4) % 2], family="roomy", nobs=1, maxn=3)
+            c.pop("decoy", None)
+            c["obs"][0]["wf"] = {"nodes": [{"k": 1, "comp": 70 * max(m["cpu"] for m in c["machines"]), "data": 0},
+                                           {"k": 2, "comp": 1, "data": 0}],
+                                 "edges": [{"u": 1, "v": 2, "vol": 1}]}
+            c["extra"] = []
+            out.append(("late", gen.normalise(c), {}))
+            continue
         off = [997, 98, 999, 99, 998][i % 5]
         c["obs"][-1]["est"] = off + rng.randint(0, 1)
         if "estT" in c["obs"][-1]:
